@@ -86,6 +86,19 @@ def get_basic_branch_results(net, branch_pit, node_pit):
     return branch_results
 
 
+def get_branch_end_temperatures(branch_pit, node_pit, from_nodes, to_nodes):
+    """
+    Temperatures at the declared from- and to-end of every branch. The fluid enters with the temperature
+    of its inlet node and leaves with the branch outlet temperature; the inlet is the declared to-end if
+    the fluid flows against the declared direction.
+    """
+    switched_t = branch_pit[:, FROM_NODE_T_SWITCHED].astype(np.bool_)
+    t_in = node_pit[from_nodes, TINIT_NODE]
+    t_in[switched_t] = node_pit[to_nodes[switched_t], TINIT_NODE]
+    t_out = branch_pit[:, TOUTINIT]
+    return np.where(switched_t, t_out, t_in), np.where(switched_t, t_in, t_out)
+
+
 def get_branch_results_gas(net, branch_pit, node_pit, from_nodes, to_nodes, v_mps, p_from, p_to):
     p_abs_from = node_pit[from_nodes, PAMB] + p_from
     p_abs_to = node_pit[to_nodes, PAMB] + p_to
@@ -96,10 +109,7 @@ def get_branch_results_gas(net, branch_pit, node_pit, from_nodes, to_nodes, v_mp
                        / (p_abs_from[mask] ** 2 - p_abs_to[mask] ** 2)
 
     fluid = get_fluid(net)
-    switched_t = branch_pit[:, FROM_NODE_T_SWITCHED].astype(np.bool_)
-    t_from = node_pit[from_nodes, TINIT_NODE]
-    t_from[switched_t] = node_pit[to_nodes[switched_t], TINIT_NODE]
-    t_to = branch_pit[:, TOUTINIT]
+    t_from, t_to = get_branch_end_temperatures(branch_pit, node_pit, from_nodes, to_nodes)
     tm = (t_from + t_to) / 2
     numerator_from = NORMAL_PRESSURE * t_from / NORMAL_TEMPERATURE
     numerator_to = NORMAL_PRESSURE * t_to / NORMAL_TEMPERATURE
@@ -124,11 +134,8 @@ def get_branch_results_gas_numba(net, branch_pit, node_pit, from_nodes, to_nodes
 
     fluid = get_fluid(net)
     args_from, args_to, args_mean = [p_abs_from], [p_abs_to], [p_abs_mean]
+    t_from, t_to = get_branch_end_temperatures(branch_pit, node_pit, from_nodes, to_nodes)
     if hasattr(fluid.all_properties["compressibility"], "allow_2d"):
-        switched_t = branch_pit[:, FROM_NODE_T_SWITCHED].astype(np.bool_)
-        t_from = node_pit[from_nodes, TINIT_NODE]
-        t_from[switched_t] = node_pit[to_nodes[switched_t], TINIT_NODE]
-        t_to = branch_pit[:, TOUTINIT]
         args_from.append(t_from)
         args_to.append(t_to)
         args_mean.append((t_from + t_to) / 2)
@@ -137,7 +144,7 @@ def get_branch_results_gas_numba(net, branch_pit, node_pit, from_nodes, to_nodes
     comp_mean = fluid.get_compressibility(*args_mean)
 
     v_gas_from, v_gas_to, v_gas_mean, normfactor_from, normfactor_to, normfactor_mean = \
-        get_gas_vel_numba(node_pit, branch_pit, comp_from, comp_to, comp_mean, p_abs_from, p_abs_to,
+        get_gas_vel_numba(t_from, t_to, comp_from, comp_to, comp_mean, p_abs_from, p_abs_to,
                           p_abs_mean, v_mps)
 
     return v_gas_from, v_gas_to, v_gas_mean, p_abs_from, p_abs_to, p_abs_mean, normfactor_from, \
@@ -161,14 +168,13 @@ def get_pressures_numba(node_pit, from_nodes, to_nodes, v_mps, p_from, p_to):
 
 
 @jit(nopython=True)
-def get_gas_vel_numba(node_pit, branch_pit, comp_from, comp_to, comp_mean, p_abs_from, p_abs_to,
+def get_gas_vel_numba(t_from_arr, t_to_arr, comp_from, comp_to, comp_mean, p_abs_from, p_abs_to,
                       p_abs_mean, v_mps):
     v_gas_from, v_gas_to, v_gas_mean, normfactor_from, normfactor_to, normfactor_mean = \
         [np.empty_like(v_mps) for _ in range(6)]
-    from_nodes = branch_pit[:, FROM_NODE].astype(np.int32)
     for i in range(len(v_mps)):
-        t_from = node_pit[from_nodes[i], TINIT_NODE]
-        t_to = branch_pit[i, TOUTINIT]
+        t_from = t_from_arr[i]
+        t_to = t_to_arr[i]
         tm = (t_from + t_to) / 2
         numerator_from = np.divide(NORMAL_PRESSURE * t_from, NORMAL_TEMPERATURE)
         numerator_to = np.divide(NORMAL_PRESSURE * t_to, NORMAL_TEMPERATURE)
